@@ -23,6 +23,10 @@ def plan(tier, seed):
     # whole levels with random strings), many DP17 levels, a PiBas table of 30000 entries
     for k, pl in enumerate(BIG):
         specs.append({"name": f"big-{k}", "kind": "big", "plan": k, "budget_s": 200 if tier == "quick" else 600})
+    # one database dict indexed by several threads at the same moment (own scheme objects, own keys)
+    for j in range(3 if tier == "quick" else 6):
+        specs.append({"name": f"shared-input-threads-{j}", "kind": "shared_input", "index": j, "primitive_monitors": False,
+                      "budget_s": 12 if tier == "quick" else 150})
     return specs
 
 
@@ -66,6 +70,106 @@ def run_big(spec, acc, ctx):
                       f"lengths {profiles[0][:5]} vs {profiles[1][:5]}", {"scheme": scheme, "cfg": cfg})
     acc.add("distinct", fp("big", scheme))
     acc.add("big_schemes", scheme)
+
+
+def edb_shape(edb):
+    raw = edb.serialize()
+    return shape(pickle.loads(raw[raw.find(b"\x80"):]))
+
+
+def run_shared_input(spec, acc, ctx):
+    """Three threads, each with its own scheme object and key, index ONE database dict at the same moment (reading
+    one dict from several threads is legitimate use), with forced switch points in schemes/ and toolkit/. Every index
+    must have the shape of the index that scheme builds single-threaded from a private copy of the same database; a
+    setup that raises although it succeeds alone is reported too (correct code only reads its input)."""
+    import os
+    import threading
+    from vlib import instrument
+    rng = ctx.rng
+    repo = os.environ.get("VERIF_REPO", "/repo")
+    k = spec.get("index", 0)
+    while not ctx.out_of_time():
+        trio = rng.sample(gen.SCHEMES, 3)
+        if k % 2 == 0 and "CT14.Pi" not in trio and "ANSS16.Scheme3" not in trio:
+            trio[0] = rng.choice(["CT14.Pi", "ANSS16.Scheme3"])     # the two schemes that pad the database itself
+        k += 1
+        cfgs = {}
+        for sname in trio:
+            cfg = gen.default_config(sname)
+            cfg["param_identifier_size"] = 8 if "param_identifier_size" in cfg else None
+            if cfg["param_identifier_size"] is None:
+                del cfg["param_identifier_size"]
+            if sname == "CGKO06.SSE1":
+                cfg.update(param_s=512, param_dictionary_size=64)
+            cfgs[sname] = cfg
+        nkw = rng.randint(3, 9)
+        lens = [rng.randint(1, 12) for _ in range(nkw)]
+        if sum(lens) & (sum(lens) - 1) == 0:
+            lens[0] += 1            # N not a power of two: the padding schemes have something to add
+        try:
+            db, info = gen.db_from_lens(rng, "CJJ14.PiBas", cfgs.get("CJJ14.PiBas") or gen.default_config("CJJ14.PiBas"),
+                                        lens, "profile", fix_config=False)
+        except ValueError:
+            continue
+        shadow = copy.deepcopy(db)
+        ref = {}
+        try:
+            for sname in trio:
+                sch = sse.loader(sname).SSEScheme(copy.deepcopy(cfgs[sname]))
+                ref[sname] = edb_shape(sch.EDBSetup(sch.KeyGen(), copy.deepcopy(db)))
+        except Exception as e:
+            acc.note(f"shared-input: single-threaded reference failed: {exc_site(e)}")
+            continue
+        acc.count("cases")
+        acc.count("shared_input.cases")
+        bad, built = [], [0]
+        lock = threading.Lock()
+        stop = [False]
+
+        def worker(sname):
+            def go():
+                sch = sse.loader(sname).SSEScheme(copy.deepcopy(cfgs[sname]))
+                for _ in range(6):
+                    if stop[0]:
+                        return
+                    try:
+                        shp = edb_shape(sch.EDBSetup(sch.KeyGen(), db))
+                    except Exception as e:     # noqa
+                        with lock:
+                            bad.append((sname, "raised", exc_site(e), f"{type(e).__name__}: {e}"))
+                        stop[0] = True
+                        return
+                    with lock:
+                        built[0] += 1
+                        if shp != ref[sname]:
+                            bad.append((sname, "shape", "", ""))
+                            stop[0] = True
+            return go
+        with instrument.YieldInjector(repo, subdirs=("schemes", "toolkit"), every=5) as yi:
+            errs = instrument.run_threads([worker(sname) for sname in trio], timeout=120)
+        acc.count("shared_input.indexes_built_concurrently", built[0])
+        acc.count("shared_input.forced_switch_points", yi.yields)
+        acc.add("shared_input.scheme_trios", "+".join(sorted(gen.SHORT[x] for x in trio)))
+        if any(isinstance(e, TimeoutError) for e in errs):
+            acc.count("shared_input.watchdog")
+            acc.note("shared-input thread workload hit its watchdog")
+            return
+        case = {"shared_input": True, "schemes": trio, "cfgs": cfgs, "db": shadow}
+        for sname, what, site, msg in bad[:1]:
+            short = gen.SHORT[sname]
+            if what == "shape":
+                acc.violation(f"{short}:shape-differs-when-the-database-is-shared-with-another-thread",
+                              f"{sname}: while {', '.join(x for x in trio if x != sname)} indexed the same database dict in "
+                              f"other threads, the index got a shape that differs from the one built alone from the same "
+                              f"database (the size then depends on more than the public size parameter)", case)
+            else:
+                acc.violation(f"{short}:setup-raised-when-the-database-is-shared-with-another-thread:{site}",
+                              f"{sname} EDBSetup raised {msg} while other threads only indexed the same database dict "
+                              f"(alone it succeeds)", case)
+        if db != shadow:
+            acc.violation("shared-input:database-changed", "the caller's database differs after the concurrent setups",
+                          case)
+        acc.add("distinct", fp("shared-input", sorted(trio), lens))
 
 
 # ------------------------------------------------------------------------------------------------ shape
@@ -320,6 +424,9 @@ def run_shard(spec, acc, ctx):
     if spec.get("kind") == "big":
         run_big(spec, acc, ctx)
         return
+    if spec.get("kind") == "shared_input":
+        run_shared_input(spec, acc, ctx)
+        return
     scheme = spec["scheme"]
     rng = ctx.rng
     i = spec["index"]
@@ -337,6 +444,11 @@ def run_shard(spec, acc, ctx):
 
 
 def replay(case, acc, ctx):
+    if case.get("shared_input"):
+        ctx.budget = 60
+        run_shared_input({"index": 0}, acc, ctx)
+        acc.count("replayed")
+        return
     scheme, cfg = case["scheme"], case["cfg"]
     L = sse.loader(scheme)
     shapes = []
@@ -382,7 +494,11 @@ def finish(m, tier, seed):
         "edbs_checked_for_uniform_lengths": c.get("tables_checked_for_uniform_lengths", 0),
         "setup_failed": c.get("setup_failed", 0),
         "databases_of_20000_to_33000_postings": c.get("big_cases", 0),
+        "one_database_dict_indexed_by_three_threads": {k[13:]: v for k, v in c.items() if k.startswith("shared_input.")},
+        "scheme_trios_sharing_one_database": len(m["sets"].get("shared_input.scheme_trios", [])),
     }
+    if c.get("shared_input.indexes_built_concurrently", 0) < 100 or c.get("shared_input.forced_switch_points", 0) < 1000:
+        inc.append("the shared-input thread workload built fewer than 100 indexes or forced fewer than 1000 switches")
     if len(m["sets"].get("big_schemes", [])) < len(BIG):
         inc.append("the large-database shards did not complete")
     return {"coverage": cov, "inconclusive": inc,
